@@ -107,6 +107,19 @@ static unsigned long scenario(int sc, config_t *cfg)
 static int hk_released[16], hk_attached[16];
 static void hk_destructor(void *h) { long id = (long)(size_t)h; if (id > 0 && id < 16) hk_released[id]++; }
 static void hk_attach(config_setting_t *s, long id) { if (s) { config_setting_set_hook(s, (void *)(size_t)id); hk_attached[id] = 1; } }
+static int hk_wf_bad;
+static void hk_walk(const config_setting_t *s, const config_setting_t *parent)
+{
+  int n = config_setting_length(s), i;
+  if (s->parent != parent) hk_wf_bad = 1;
+  if (!config_setting_is_aggregate(s)) { if (n != 0) hk_wf_bad = 1; return; }
+  for (i = 0; i < n; i++) {
+    const config_setting_t *k = config_setting_get_elem(s, i);          /* reads elements[i]: ASan sees a length beyond the allocation */
+    if (!k || config_setting_index(k) != i) { hk_wf_bad = 1; return; }
+    if (s->type == CONFIG_TYPE_GROUP && (!k->name || config_setting_get_member(s, k->name) != k)) hk_wf_bad = 1;
+    hk_walk(k, s);
+  }
+}
 static long hooks_scenario(long k)
 {
   config_t cfg; config_setting_t *r, *g, *l, *s; int i; long n = 0;
@@ -132,6 +145,7 @@ static long hooks_scenario(long k)
     in_lib = 0; n = counter;
   }
   in_lib = 0; fail_at = -1;
+  hk_wf_bad = 0; hk_walk(config_root_setting(&cfg), NULL);               /* the tree an interrupted call leaves behind is well-formed */
   config_destroy(&cfg);
   return n;
 }
@@ -179,6 +193,7 @@ int main(int argc, char **argv)
           int h, bad = 0;
           hooks_scenario(k);
           for (h = 1; h < 16; h++) if (hk_attached[h] && hk_released[h] != 1) { printf("hooks BAD hook=%d released=%d times\n", h, hk_released[h]); bad = 1; break; }
+          if (!bad && hk_wf_bad) { printf("hooks BAD tree not well-formed after the interrupted call\n"); bad = 1; }
           if (!bad) printf("hooks ok\n");
           fflush(stdout); _exit(0);
         }
